@@ -1,5 +1,6 @@
 import Proofs.Lemmas.ForkChoiceSimBase
 import Proofs.Lemmas.ForkChoiceRefQueries
+import Proofs.Lemmas.ForkChoiceRefQueries2
 /-! Simulation of the specification by the code-shaped model on admissible histories: `refines_run`, `head_eq_ghost_run`. -/
 namespace Zrnt.ForkChoice
 open Spec FC
@@ -168,7 +169,25 @@ theorem stepLive_sim (fc : FC) (a : Abs) (hh : fc.held = false) (I : FI fc) (hl 
     | err s => exact fun hs => ⟨hs.1, fun _ => hs.2.symm⟩
     | panic => exact fun hs => hs.elim
     | blocked => exact fun hs => hs.elim
-  | canonAt rt s w => exact ⟨qsim _ _ (fun pr hw => goodFr_canonAtSlot pr hw rt s w), fun h => by cases h⟩
+  | canonAt rt s w =>
+    have hs := afterVotes_sim fc a hh I hl r (·.canonAtSlot rt s w) Ans.ref (a.canonAt rt s w)
+      (fun fc' I' hl' r' hset' => by
+        have := canonAt_refines fc' a I' hl' r' hset' rt s w
+        revert this
+        cases fc'.pa.canonAtSlot rt s w with
+        | ok s x => exact fun h => ⟨h.1, h.2⟩
+        | err s => exact fun h => ⟨h.1, h.2⟩
+        | panic => exact fun h => h
+        | spin => exact fun h => h)
+    show (match (finish (fc.canonAtSlot rt s w) _).1 with | .live fc' => Ref fc' a | _ => False) ∧
+      (_ → (finish (fc.canonAtSlot rt s w) Ans.ref).2 = a.canonAt rt s w)
+    unfold FC.canonAtSlot
+    revert hs
+    cases fc.withLock (·.afterVotes (·.canonAtSlot rt s w)) with
+    | ok s x => exact fun hs => ⟨hs.1, fun _ => hs.2.symm⟩
+    | err s => exact fun hs => ⟨hs.1, fun _ => hs.2.symm⟩
+    | panic => exact fun hs => hs.elim
+    | blocked => exact fun hs => hs.elim
   | search x p s => exact ⟨qsim _ _ (fun pr hw => goodFr_search pr hw x p s), fun h => by cases h⟩
   | closest rt s =>
     have hc := closest_refines fc a I r rt s
@@ -202,21 +221,74 @@ theorem stepLive_sim (fc : FC) (a : Abs) (hh : fc.held = false) (I : FI fc) (hl 
   | pinq => exact ⟨r, fun _ => by simp [stepLive, Abs.stepLive, r.pin]⟩
   | nodes => exact ⟨r, fun h => by cases h⟩
 
+/-- `Search`: unless the specification leaves the search unconstrained (`any`), the model's answer is the
+specification's (the two result lists element by element) -/
+theorem stepLive_search (fc : FC) (a : Abs) (hh : fc.held = false) (I : FI fc) (hl : LI fc.pa) (r : Ref fc a)
+    (x : NodeRef) (p : Option Root) (s : Option Nat) :
+    (a.stepLive (.search x p s)).2 = Ans.any ∨ (stepLive fc (.search x p s)).2 = (a.stepLive (.search x p s)).2 := by
+  by_cases hne : a.search x p s = Ans.any
+  · exact Or.inl hne
+  · right
+    have hs := afterVotes_sim fc a hh I hl r (·.search x p s) (fun q => Ans.search q.1 q.2) (a.search x p s)
+      (fun fc' I' hl' r' hset' => by
+        have := search_refines_eq fc' a I' hl' r' hset' x p s hne
+        revert this
+        cases fc'.pa.search x p s with
+        | ok s q => obtain ⟨nc, c⟩ := q; exact fun h => ⟨h.1, h.2⟩
+        | err s => exact fun h => ⟨h.1, h.2⟩
+        | panic => exact fun h => h
+        | spin => exact fun h => h)
+    show (finish (fc.search x p s) (fun q => Ans.search q.1 q.2)).2 = a.search x p s
+    unfold FC.search
+    revert hs
+    cases fc.withLock (·.afterVotes (·.search x p s)) with
+    | ok s q => exact fun hs => hs.2.symm
+    | err s => exact fun hs => hs.2.symm
+    | panic => exact fun hs => hs.elim
+    | blocked => exact fun hs => hs.elim
+
 /-! ## the two machines in lock-step -/
 
+theorem step_search (st : MState) (sa : Option Abs) (h3 : MInv3 st) (hR : MRef st sa) (op : Op)
+    (hq : IsSearch op = true) : (Spec.step sa op).2 = Ans.any ∨ (step st op).2 = (Spec.step sa op).2 := by
+  cases op <;> simp [IsSearch] at hq
+  rename_i x p s
+  cases st with
+  | dead => exact h3.elim
+  | none =>
+    cases sa with
+    | some a => exact hR.elim
+    | none => exact Or.inr rfl
+  | live fc =>
+    cases sa with
+    | none => exact hR.elim
+    | some a =>
+      have hc : a.poisoned = false := (show Ref fc a from hR).clean
+      have hs := stepLive_search fc a h3.1 h3.2.1 h3.2.2 hR x p s
+      simp only [step, Spec.step]
+      show (if (a.stepLive (.search x p s)).1.poisoned = true then Ans.any else (a.stepLive (.search x p s)).2) = Ans.any ∨
+        (stepLive fc (.search x p s)).2 =
+          (if (a.stepLive (.search x p s)).1.poisoned = true then Ans.any else (a.stepLive (.search x p s)).2)
+      have h1 : (a.stepLive (.search x p s)).1 = a := rfl
+      rw [h1, hc]
+      simpa using hs
+
 theorem step_sim (st : MState) (sa : Option Abs) (h3 : MInv3 st) (hR : MRef st sa) (op : Op) (hok : StepOK st op) :
-    MRef (step st op).1 (Spec.step sa op).1 ∧ (Refined op = true → (step st op).2 = (Spec.step sa op).2) := by
+    MRef (step st op).1 (Spec.step sa op).1 ∧ (Refined op = true → (step st op).2 = (Spec.step sa op).2) ∧
+      (IsSearch op = true → (Spec.step sa op).2 = Ans.any ∨ (step st op).2 = (Spec.step sa op).2) := by
+  refine ⟨?_, ?_, step_search st sa h3 hR op⟩
+  all_goals
   cases op with
   | init spe ar as ap j f sink bals =>
     have := mref_init st sa spe ar as ap j f sink bals
-    exact ⟨this.1, fun _ => this.2⟩
+    first | exact this.1 | exact fun _ => this.2
   | _ =>
     cases st with
     | dead => exact h3.elim
     | none =>
       cases sa with
       | some a => exact hR.elim
-      | none => exact ⟨trivial, fun _ => rfl⟩
+      | none => first | exact trivial | exact fun _ => rfl
     | live fc =>
       cases sa with
       | none => exact hR.elim
@@ -236,11 +308,12 @@ theorem step_sim (st : MState) (sa : Option Abs) (h3 : MInv3 st) (hR : MRef st s
         | live fc' =>
           have hc : s1.poisoned = false := (show Ref fc' s1 from h1).clean
           simp only [hc, Bool.false_eq_true, if_false]
-          exact ⟨h1, h2⟩
+          first | exact h1 | exact h2
 
 /-- the answers to the refined operations agree position by position -/
 def AnswersAgree : List Op → List Ans → List Ans → Prop
-  | op :: ops, x :: xs, y :: ys => (Refined op = true → x = y) ∧ AnswersAgree ops xs ys
+  | op :: ops, x :: xs, y :: ys =>
+    (Refined op = true → x = y) ∧ (IsSearch op = true → y = Ans.any ∨ x = y) ∧ AnswersAgree ops xs ys
   | [], [], [] => True
   | _, _, _ => False
 
@@ -262,11 +335,11 @@ theorem refines_run : ∀ (ops : List Op) (st : MState) (sa : Option Abs), MInv3
   | nil => intro st sa _ hR _; exact ⟨trivial, hR⟩
   | cons op rest ih =>
     intro st sa h3 hR ha
-    obtain ⟨hr1, hans⟩ := step_sim st sa h3 hR op ha.1
+    obtain ⟨hr1, hans, hsrch⟩ := step_sim st sa h3 hR op ha.1
     have h3' := step_inv3 st h3 op ha.1
     obtain ⟨hrest, hfin⟩ := ih (step st op).1 (Spec.step sa op).1 h3' hr1 ha.2
     simp only [run, Spec.run]
-    exact ⟨⟨hans, hrest⟩, hfin⟩
+    exact ⟨⟨hans, hsrch, hrest⟩, hfin⟩
 
 theorem headsAgree_of_answers : ∀ (ops : List Op) (xs ys : List Ans), AnswersAgree ops xs ys → HeadsAgree ops xs ys := by
   intro ops
@@ -279,7 +352,7 @@ theorem headsAgree_of_answers : ∀ (ops : List Op) (xs ys : List Ans), AnswersA
     | cons x xs =>
       cases ys with
       | nil => simp [AnswersAgree] at h
-      | cons y ys => exact ⟨fun hh => h.1 (refined_of_head hh), ih xs ys h.2⟩
+      | cons y ys => exact ⟨fun hh => h.1 (refined_of_head hh), ih xs ys h.2.2⟩
 
 theorem head_eq_ghost_run (ops : List Op) (st : MState) (sa : Option Abs) (h3 : MInv3 st) (hR : MRef st sa)
     (ha : Admissible st ops) :
